@@ -54,6 +54,20 @@ impl StarFrameProgram for Program64 {
     const ID: Pubkey = pubkey!("HxCodec555555555555555555555555555555555555");
 }
 
+/// 1-byte and 16-byte account discriminants.
+pub struct Program8;
+impl StarFrameProgram for Program8 {
+    type InstructionSet = ();
+    type AccountDiscriminant = u8;
+    const ID: Pubkey = pubkey!("HxCodec666666666666666666666666666666666666");
+}
+pub struct Program128;
+impl StarFrameProgram for Program128 {
+    type InstructionSet = ();
+    type AccountDiscriminant = u128;
+    const ID: Pubkey = pubkey!("HxCodec777777777777777777777777777777777777");
+}
+
 // ------------------------------------------------------------------------------------------------
 // fixed types
 
@@ -270,6 +284,16 @@ ux_enum!(
 );
 ux_struct!(SD1, SD1Owned, SD1Sized, SD1Init, sized { tag: u8 }, fields { e: ED1, f: ED6, g: ED5 });
 ux_struct!(AcctD, AcctDOwned, AcctDInit, args [, program_account, program = Program32, discriminant = 0x0D15EA5Eu32], fields { e: ED3, d: ED4 });
+
+// accounts whose body can serialize to ZERO bytes (only a RemainingBytes field), one per discriminant
+// width: 1, 2 ([u8; 2]), 2 (u16), 4, 8 (default sighash), 8 (u64), 16
+ux_struct!(Blob1, Blob1Owned, Blob1Init, args [, program_account, program = Program8, discriminant = 0xB1u8], fields { blob: RemainingBytes });
+ux_struct!(Blob2, Blob2Owned, Blob2Init, args [, program_account, program = Program2, discriminant = [0xB2, 0x02]], fields { blob: RemainingBytes });
+ux_struct!(Blob16, Blob16Owned, Blob16Init, args [, program_account, program = Program16, discriminant = 0xB216u16], fields { blob: RemainingBytes });
+ux_struct!(Blob32, Blob32Owned, Blob32Init, args [, program_account, program = Program32, discriminant = 0xB2320000u32], fields { blob: RemainingBytes });
+ux_struct!(Blob8, Blob8Owned, Blob8Init, args [, program_account], fields { blob: RemainingBytes });
+ux_struct!(Blob64, Blob64Owned, Blob64Init, args [, program_account, program = Program64, discriminant = 0xB264u64], fields { blob: RemainingBytes });
+ux_struct!(Blob128, Blob128Owned, Blob128Init, args [, program_account, program = Program128, discriminant = 0xB2128_0000_0000_0000_0000_0000u128], fields { blob: RemainingBytes });
 
 // generic structs with and without the phantom marker; bool / checked enum first, middle and last
 ux_generic_struct!(GP1, GP1Owned, GP1Sized, args [], sized { first: bool, a: A, last: Color });
@@ -727,6 +751,13 @@ pub fn registry() -> Registry {
         e!("T63", UnsizedList<ED3>),
         e!("T64", UnsizedMap<u8, ED6>),
         e!("T65", UnsizedList<SD1>),
+        ("A08", Box::new(AcctEntry::<Blob1>::new()) as Box<dyn DynType>),
+        ("A09", Box::new(AcctEntry::<Blob2>::new()) as Box<dyn DynType>),
+        ("A10", Box::new(AcctEntry::<Blob16>::new()) as Box<dyn DynType>),
+        ("A11", Box::new(AcctEntry::<Blob32>::new()) as Box<dyn DynType>),
+        ("A12", Box::new(AcctEntry::<Blob8>::new()) as Box<dyn DynType>),
+        ("A13", Box::new(AcctEntry::<Blob64>::new()) as Box<dyn DynType>),
+        ("A14", Box::new(AcctEntry::<Blob128>::new()) as Box<dyn DynType>),
         ("A06", Box::new(AcctEntry::<AcctV>::new()) as Box<dyn DynType>),
         ("A07", Box::new(AcctEntry::<AcctD>::new()) as Box<dyn DynType>),
         ("A01", Box::new(AcctEntry::<Acct1>::new()) as Box<dyn DynType>),
